@@ -112,10 +112,17 @@ def gen(seed, run, sub="pipe", tier="quick"):
     if sub == "direct":
         n = r.choice([1, 2, 5, 12, 30])
         lines, readings = [], {}
+        # sometimes draw from a small pool so that identical report lines recur (an idle machine
+        # reports the same values again), interleaved with other reports of the same family
+        pool = [gen_report(r) for _ in range(r.choice([2, 3, 4]))] if r.random() < 0.35 else None
+        if pool is not None and r.random() < 0.7:
+            _, t0, v0, f0 = pool[0]
+            if t0.startswith("T:"):            # the same temperatures once more on an ack line
+                pool.append(("M105", "ok " + t0, v0, True))
         for _ in range(n):
             u = r.random()
             if u < 0.75:
-                _, text, vals, _f = gen_report(r)
+                _, text, vals, _f = r.choice(pool) if pool is not None else gen_report(r)
                 if r.random() < 0.1:
                     text = " " + text + " "
                 lines.append(text)
@@ -129,9 +136,10 @@ def gen(seed, run, sub="pipe", tier="quick"):
     n = r.choice([1, 2, 3, 4, 6, 10])
     transport = r.choice(["serial", "serial", "socket"])
     stmts, replies, readings = [], {}, {}
+    pool = [gen_report(r) for _ in range(r.choice([2, 3]))] if r.random() < 0.3 else None
     for i in range(n):
         if r.random() < 0.75:
-            cmd, text, vals, fused = gen_report(r)
+            cmd, text, vals, fused = r.choice(pool) if pool is not None else gen_report(r)
             stmts.append("%s ; q%d" % (cmd, i))
             readings[text] = vals
             rep = [text] if fused else [text, "ok"]
@@ -145,6 +153,10 @@ def gen(seed, run, sub="pipe", tier="quick"):
     faults = []
     for _ in range(r.choice([0, 0, 1, 2, 4])):
         _, text, vals, _f = gen_report(r, allow_ok=False)
+        if pool is not None and r.random() < 0.6:
+            cand = [x for x in pool if not x[3]]
+            if cand:
+                _, text, vals, _f = r.choice(cand)
         readings[text] = vals
         faults.append({"k": "unsol", "rx": r.randrange(0, n + 4), "dt": round(r.choice([0, 0.001, 0.05, 0.3]), 6),
                        "text": text})
@@ -155,7 +167,14 @@ def gen(seed, run, sub="pipe", tier="quick"):
         if r.random() < 0.4:      # reply lines travelling in two segments, sometimes > read time-out apart
             draws["seg"] = [r.choice([0, 0, 0.3, 0.5, 0.9]) for _ in range(16)]
             draws["seggap"] = [r.choice([0.0, 0.001, 0.1, 0.3, 0.6]) for _ in range(8)]
-    ops = [["connect"], ["settle"]] + [["write", i] for i in range(n)] + [["disconnect", True]]
+    ops = [["connect"], ["settle"]]
+    half = r.randrange(1, n) if (n >= 2 and r.random() < 0.2) else None
+    for i in range(n):
+        if half is not None and i == half:
+            # readings survive a disconnect/connect cycle of the same writer object
+            ops += [["disconnect", True], ["connect"], ["settle"]]
+        ops.append(["write", i])
+    ops.append(["disconnect", True])
     return {
         "lane": "c18", "sub": sub, "transport": transport, "via": r.choice(["delegate", "bare"]),
         "cfg": {"greeting": r.choice(["start", "", "start\necho:Marlin 2.1.2"]), "boot": r.choice([0.0, 0.05]),
